@@ -681,8 +681,13 @@ class ExecComp(ExplicitComponent):
             if self.options['do_coloring'] and not has_diag_partials:
                 rank = self.comm.rank
                 sizes = self._var_sizes
-                if not self._has_distrib_vars and (sum(sizes['input'][rank]) > 1 and
-                                                   sum(sizes['output'][rank]) > 1):
+                # A sparsity pattern sampled at one point is only valid everywhere if no partial can
+                # vanish on a whole region of the input space.  max/min/abs-like functions switch their
+                # dependence between arguments, so the automatic coloring is not used with them.
+                branching = any(_branching_functs.intersection(fnames)
+                                for _, _, fnames in self._exprs_info)
+                if not self._has_distrib_vars and not branching and \
+                   (sum(sizes['input'][rank]) > 1 and sum(sizes['output'][rank]) > 1):
                     if not self._coloring_declared:
                         super().declare_coloring(wrt=('*', ), method='cs', show_summary=False)
                         self._coloring_info.dynamic = True
@@ -1252,6 +1257,9 @@ def _import_functs(mod, dct, names=None):
 
 _expr_dict = {}  # this dict will act as the local scope when we eval our expressions
 _not_complex_safe = set()  # this is the set of registered functions that are not complex safe
+
+# functions whose derivative wrt an argument is identically zero on part of the input space
+_branching_functs = {'maximum', 'minimum', 'fmax', 'fmin', 'max', 'min', 'abs'}
 
 
 _import_functs(np, _expr_dict,
